@@ -97,7 +97,7 @@ func execHandler(h handlers.Handler, c wire.Cmd, spare int) (res hres, keysIntac
 	switch c.Kind {
 	case wire.Set, wire.Add, wire.Replace, wire.Append, wire.Prepend:
 		k := keySlice(c.Key, spare)
-		req := common.SetRequest{Key: k, Data: append([]byte(nil), c.Value...), Flags: c.Flags, Exptime: c.Exptime}
+		req := common.SetRequest{Key: k, Data: append([]byte(nil), c.Value...), Flags: c.Flags, Exptime: c.Exptime, Quiet: c.Quiet, Opaque: c.Opaque}
 		var err error
 		switch c.Kind {
 		case wire.Set:
@@ -115,15 +115,15 @@ func execHandler(h handlers.Handler, c wire.Cmd, spare int) (res hres, keysIntac
 		return hres{Class: errClass(err), Err: err}, keysIntact
 	case wire.Delete:
 		k := keySlice(c.Key, spare)
-		err := h.Delete(common.DeleteRequest{Key: k})
+		err := h.Delete(common.DeleteRequest{Key: k, Quiet: c.Quiet, Opaque: c.Opaque})
 		return hres{Class: errClass(err), Err: err}, spareIntact(k, c.Key)
 	case wire.Touch:
 		k := keySlice(c.Key, spare)
-		err := h.Touch(common.TouchRequest{Key: k, Exptime: c.Exptime})
+		err := h.Touch(common.TouchRequest{Key: k, Exptime: c.Exptime, Quiet: c.Quiet, Opaque: c.Opaque})
 		return hres{Class: errClass(err), Err: err}, spareIntact(k, c.Key)
 	case wire.Gat:
 		k := keySlice(c.Key, spare)
-		r, err := h.GAT(common.GATRequest{Key: k, Exptime: c.Exptime})
+		r, err := h.GAT(common.GATRequest{Key: k, Exptime: c.Exptime, Quiet: c.Quiet, Opaque: c.Opaque})
 		res = hres{Class: errClass(err), Err: err}
 		if err == nil {
 			if r.Miss {
